@@ -1,7 +1,7 @@
 """C19 - active_children() tracks exactly the live workers."""
 import ast
 
-from ..astutil import dotted, calls_in, last_attr, receiver, norm, is_name, walk_local, loc, parent_map
+from ..astutil import dotted, calls_in, last_attr, receiver, norm, is_name, walk_local, loc, parent_map, short
 from ..cfg import is_flow
 
 EXPLANATION = (
@@ -179,6 +179,26 @@ def run(ctx):
                           where=loc(f, w))
 
     # ---------------------------------------------------------------- R3 registration
+    # one object per worker: the constructor registers the object being constructed, so no method of a worker class may construct another instance of
+    # its own class (type(self)(...), self.__class__(...)) - the twin would be listed next to (or instead of) the worker the user holds
+    n_cls = 0
+    for c in P.classes.values():
+        names = [x.name for x in c.mro() if not isinstance(x, str)]
+        if 'Worker' not in names:
+            continue
+        n_cls += 1
+        for f in c.methods.values():
+            if f.is_classmethod if hasattr(f, 'is_classmethod') else False:
+                continue
+            for call in calls_in(f.node):
+                fn = call.func
+                twin = (isinstance(fn, ast.Call) and is_name(fn.func, 'type') and fn.args and is_name(fn.args[0], 'self')) or \
+                       (isinstance(fn, ast.Attribute) and fn.attr == '__class__' and is_name(fn.value, 'self'))
+                if twin:
+                    ctx.check('R3', f'{f.short}: no second instance of the worker\'s own class is constructed', False, f.short, 'twin-constructed',
+                              f'`{short(call, 60)}` in {f.short} constructs a second worker object: its constructor registers *it* as an active child, so active_children() yields the '
+                              'twin next to - or, once the dead incarnation has been pruned, instead of - the worker the user holds', where=loc(f, call))
+    ctx.ob('R3', f'no method of the {n_cls} worker classes constructs a second instance of its own class', True)
     g = ctx.an.cfg(init_f, W)
     reg_calls = [c for c in calls_in(init_f.node) if last_attr(c) == 'register_child']
     ctx.check('R3', 'Worker.__init__ registers the child', len(reg_calls) == 1, 'Worker.__init__', f'register-calls:{len(reg_calls)}',
